@@ -138,6 +138,9 @@ func (socket *ftpPassiveSocket) Read(p []byte) (n int, err error) {
 	if err := socket.waitForOpenSocket(); err != nil {
 		return 0, err
 	}
+	// a peer that connects and then stalls (or never starts the TLS
+	// handshake) must not block the session for ever
+	socket.conn.SetDeadline(time.Now().Add(passiveAcceptTimeout))
 	return socket.conn.Read(p)
 }
 
@@ -145,6 +148,7 @@ func (socket *ftpPassiveSocket) Write(p []byte) (n int, err error) {
 	if err := socket.waitForOpenSocket(); err != nil {
 		return 0, err
 	}
+	socket.conn.SetDeadline(time.Now().Add(passiveAcceptTimeout))
 	return socket.conn.Write(p)
 }
 
